@@ -624,7 +624,7 @@ pub fn defs() -> Vec<CheckDef> {
         CheckDef {
             id: "C03",
             level: "exploration",
-            runs_quick: 400_000,
+            runs_quick: 1_000_000,
             runs_thorough: 12_000_000,
             block: 512,
             gen: gen_c03,
@@ -637,7 +637,7 @@ pub fn defs() -> Vec<CheckDef> {
         CheckDef {
             id: "C04",
             level: "fault_enumeration",
-            runs_quick: 500_000,
+            runs_quick: 400_000,
             runs_thorough: 15_000_000,
             block: 512,
             gen: gen_c04,
@@ -650,7 +650,7 @@ pub fn defs() -> Vec<CheckDef> {
         CheckDef {
             id: "C06",
             level: "fault_enumeration",
-            runs_quick: 300_000,
+            runs_quick: 1_000_000,
             runs_thorough: 10_000_000,
             block: 512,
             gen: gen_c06,
@@ -663,7 +663,7 @@ pub fn defs() -> Vec<CheckDef> {
         CheckDef {
             id: "C07",
             level: "exploration",
-            runs_quick: 40_000,
+            runs_quick: 150_000,
             runs_thorough: 1_200_000,
             block: 128,
             gen: gen_c07,
@@ -676,7 +676,7 @@ pub fn defs() -> Vec<CheckDef> {
         CheckDef {
             id: "C08",
             level: "exploration",
-            runs_quick: 300_000,
+            runs_quick: 900_000,
             runs_thorough: 9_000_000,
             block: 512,
             gen: gen_c08,
